@@ -53,7 +53,7 @@ def sel_test(rng, dirs, files):
 def gen_expr(rng, dirs, files):
     t, tk = sel_test(rng, dirs, files)
     shape = rng.choice(["T-prune-o-print", "(T-prune),print", "print,T-prune", "!T-o-prune", "two-prunes", "prune-only",
-                        "T-prune-o-printf", "nested"])
+                        "T-prune-o-printf", "nested", "T-prune-failing-fprint", "T-prune-o-failing-execdir-plus"])
     if shape == "T-prune-o-print":
         e = t + ["-prune", "-o", "-print"]
     elif shape == "(T-prune),print":
@@ -67,6 +67,12 @@ def gen_expr(rng, dirs, files):
         e = t + ["-prune", "-o"] + t2 + ["-prune", "-o", "-print"]
     elif shape == "prune-only":
         e = t + ["-prune"]
+    elif shape == "T-prune-failing-fprint":
+        # the entry -prune fires on also records a failure (output that cannot be written): still exactly that subtree is cut
+        e = t + ["-prune", "-fprint", "/dev/full", "-o", "-print"]
+    elif shape == "T-prune-o-failing-execdir-plus":
+        # a failing '{} +' batch is reported while the walk moves on to the next entry - possibly the one -prune fires on
+        e = t + ["-prune", "-o", "(", "-type", "f", "-execdir", "/bin/false", "{}", "+", ",", "-print", ")"]
     elif shape == "T-prune-o-printf":
         e = t + ["-prune", "-printf", "P:%p\\n", "-o", "-printf", "V:%p\\n"]
     else:
@@ -109,12 +115,15 @@ def worker(job):
             for i in range(nexpr):
                 toks, shape, df, tk = gen_expr(rng, dirs, files)
                 cid = "%d_%d_%d" % (k, t, i)
-                cases.append({"id": cid, "toks": toks, "files": [], "stratum": shape, "has_plus": False, "df": df, "tk": tk})
+                # follow mode: under -L (and -H for the starting point) a link to a directory IS entered, so -prune on it cuts
+                mode = rng.choice(["P", "P", "P", "L", "L", "H"])
+                cases.append({"id": cid, "toks": toks, "files": [], "stratum": shape, "has_plus": False, "df": df, "tk": tk, "mode": mode,
+                              "lead": [] if mode == "P" and rng.random() < 0.7 else ["-" + mode]})
             lines = []
             for c in cases:
-                lines.append(common.find_case(c["id"], ["find", "r"] + c["toks"]))
+                lines.append(common.find_case(c["id"], ["find"] + c["lead"] + ["r"] + c["toks"]))
                 if c["df"]:
-                    lines.append(common.find_case(c["id"] + "np", ["find", "r"] + no_prune_variant(c["toks"])))
+                    lines.append(common.find_case(c["id"] + "np", ["find"] + c["lead"] + ["r"] + no_prune_variant(c["toks"])))
             raw = common.run_vh("find", lines, base, cwd=sb)
             for c in cases:
                 r = common.FindResult(raw[c["id"]])
@@ -130,7 +139,7 @@ def worker(job):
                                    {"args": ["find", "r"] + c["toks"], "with_prune": r.out[:500], "without_prune": r2.out[:500]},
                                    {"case": c})
             for c in cases[:nbinary]:
-                rc, out, err, to = common.run_cmd([common.FIND, "r"] + c["toks"], cwd=sb, env=common.clean_env(), timeout=60)
+                rc, out, err, to = common.run_cmd([common.FIND] + c["lead"] + ["r"] + c["toks"], cwd=sb, env=common.clean_env(), timeout=60)
                 st.inc("binary_runs")
                 judge(st, c, sb, out, rc, "binary", dirs)
             st.inc("trees")
@@ -145,7 +154,11 @@ def worker(job):
 def judge(st, c, cwd, out, code, vehicle, dirs):
     env, opts, ast, nvis, w = c01.reference(c, cwd)
     exp = refeval.expected_bytes(env.sinks.get("stdout", []))
+    if w.out_of_domain or w.errors:
+        st.inc("out_of_domain(link loop under a follow mode)")
+        return
     st.inc("evaluations")
+    st.inc("mode:" + c.get("mode", "P"))
     st.inc("shape:" + c["stratum"])
     st.inc("test:" + c["tk"])
     st.inc("entries_in_sequences", exp.count(b"\n"))
@@ -154,16 +167,25 @@ def judge(st, c, cwd, out, code, vehicle, dirs):
         st.inc("runs_depth_first(" + str(c["df"]) + ")")
     # which directories were pruned in the reference run, and where among their siblings
     if not opts["depth_first"]:
-        full, _ = __import__("refwalk").walk_list(["r"], "P", opts["mindepth"], opts["maxdepth"], False, True, cwd)
+        full, _ = __import__("refwalk").walk_list(["r"], c.get("mode", "P"), opts["mindepth"], opts["maxdepth"], False, True, cwd)
         visited = set(l for l in exp.decode("utf-8", "replace").replace("P:", "").replace("V:", "").split("\n") if l)
         allp = [e.path for e in full]
         cut = [p for p in allp if p not in visited]
         if cut:
             st.inc("runs_with_subtree_cut")
+            if c.get("mode", "P") != "P" and c["tk"] == "link":
+                st.inc("runs_with_subtree_cut_below_a_followed_link")
             st.inc("entries_cut", len(cut))
-    if out != exp or code != 0:
+    want_code = 0
+    if c["stratum"] == "T-prune-failing-fprint" and env.sinks.get("/dev/full"):
+        want_code = 1
+        st.inc("runs_with_failing_action_on_pruned_entry")
+    if c["stratum"] == "T-prune-o-failing-execdir-plus" and env.plus:
+        want_code = 1
+        st.inc("runs_with_failing_execdir_plus_batches")
+    if out != exp or code != want_code:
         st.violate("sequence-differs", None,
-                   {"args": ["find", "r"] + c["toks"], "expected": exp[:700], "observed": out[:700], "exit": code,
+                   {"args": ["find"] + c.get("lead", []) + ["r"] + c["toks"], "expected": exp[:700], "observed": out[:700], "exit": code, "expected_exit": want_code,
                     "vehicle": vehicle}, {"case": c})
     if st.c["evaluations"] % 151 == 1:
         st.sample({"args": ["find", "r"] + c["toks"], "sequence": out[:160]})
@@ -319,11 +341,11 @@ def run(ctx):
     ctx.assumptions = ["reference walk/evaluator (lib/refwalk.py, lib/refeval.py)", "exact sequences under -P; under -H/-L (incl. a symlinked starting point) only the statement's ancestor/descendant order invariant is judged"]
     c01.self_check(ctx.scratch())
     nw = common.NCPU
-    ntrees = ctx.scale(320, 8000)
+    ntrees = ctx.scale(320, 48000)
     jobs = [(k, ntrees // nw, ctx.scale(10, 14), ctx.seed, ctx.scale(30, 80), 1) for k in range(nw)]
     ctx.pmap(worker, jobs)
-    ctx.pmap(order_worker, [(k, ctx.scale(10, 300), ctx.seed) for k in range(nw)])
-    ctx.pmap(bytes_order_worker, [(k, ctx.scale(12, 400), ctx.seed) for k in range(nw)])
+    ctx.pmap(order_worker, [(k, ctx.scale(10, 1500), ctx.seed) for k in range(nw)])
+    ctx.pmap(bytes_order_worker, [(k, ctx.scale(12, 2000), ctx.seed) for k in range(nw)])
     ctx.require("non_utf8_sorted_runs", 20)
     ctx.require("follow_mode_sequences_with_link_loop", 3)
     ctx.require("order_runs(-H,symlinked-root,depth)", 5)
